@@ -1474,8 +1474,15 @@ pub fn sweep_bodies(max_per_type: usize) -> Vec<(String, Value)> {
     let mut out = Vec::new();
     for m in models() {
         let sw = sweeps(&m);
-        let step = (sw.len() / max_per_type.max(1)).max(1);
-        for c in sw.iter().step_by(step) {
+        // every point that deviates from the baseline in at most one dimension, then an even sample of the
+        // two-dimensional ones up to the cap
+        let (one, two): (Vec<&Vec<u8>>, Vec<&Vec<u8>>) = sw.iter().partition(|c| c.iter().filter(|x| **x != 0).count() <= 1);
+        for c in &one {
+            out.push((m.mt.to_string(), make_case(&m, c).body));
+        }
+        let room = max_per_type.saturating_sub(one.len()).max(max_per_type / 4);
+        let step = (two.len() / room.max(1)).max(1);
+        for c in two.iter().step_by(step) {
             out.push((m.mt.to_string(), make_case(&m, c).body));
         }
     }
